@@ -85,7 +85,8 @@ Proof.
   unfold bilin, bilin_core, cell, u_interp2d_v.
   cbv beta iota zeta delta [nleb nsub nmul nadd ndiv nabs nofZ NumR]. cbn [fst snd].
   name_selection u Eu.
-  rewrite ?(axis_dim _ _ Ax), ?(axis_dim _ _ Ay), ?(dim2_0 v _ _ Sv), ?(dim2_1 v _ _ Sv) in Eu |- *.
+  rewrite (axis_dim x nx Ax), (axis_dim y ny Ay).
+  rewrite ?(axis_dim x nx Ax), ?(axis_dim y ny Ay), ?(dim2_0 v nx ny Sv), ?(dim2_1 v nx ny Sv) in Eu.
   rewrite (proj2 (Rleb_true _ _) Hx0), (proj2 (Rleb_true _ _) Hx1),
           (proj2 (Rleb_true _ _) Hy0), (proj2 (Rleb_true _ _) Hy1).
   cbn [andb negb].
@@ -277,6 +278,109 @@ Proof.
     rewrite andb_comm in E. rewrite (interp2d_outside y x vt yq xq fval E). reflexivity.
 Qed.
 
+
+(* ================================================================== *)
+(* 5. a concrete transpose: the hypothesis on `vt` above is satisfiable *)
+(* ================================================================== *)
+(* ---------- arrays tabulated from a function (to exhibit concrete transposes) ---------- *)
+Section Tab.
+Context {A : Type}.
+
+Lemma flat_map_rows_length (f : nat -> list A) (m : nat) : (forall k, length (f k) = m) ->
+  forall n s, length (flat_map f (seq s n)) = (n * m)%nat.
+Proof.
+  intros Hf n. induction n as [|n IH]; intros s; simpl; [reflexivity|].
+  rewrite app_length, Hf, IH. reflexivity.
+Qed.
+
+Lemma nth_flat_map_rows (f : nat -> list A) (m : nat) (d : A) : (forall k, length (f k) = m) ->
+  forall n s a b, (a < n)%nat -> (b < m)%nat ->
+  nth (a * m + b) (flat_map f (seq s n)) d = nth b (f (s + a)%nat) d.
+Proof.
+  intros Hf n. induction n as [|n IH]; intros s a b Ha Hb; [lia|]. simpl.
+  destruct a as [|a].
+  - rewrite app_nth1 by (rewrite Hf; lia). simpl. rewrite Nat.add_0_r. reflexivity.
+  - rewrite app_nth2 by (rewrite Hf; simpl; lia). rewrite Hf.
+    replace (S a * m + b - m)%nat with (a * m + b)%nat by (simpl; lia).
+    rewrite IH by lia. f_equal. f_equal. lia.
+Qed.
+
+Lemma nth_map_seq (g : nat -> A) (n b : nat) (d : A) : (b < n)%nat -> nth b (map g (seq 0 n)) d = g b.
+Proof.
+  intros Hb. rewrite (nth_indep _ d (g 0%nat)) by (rewrite map_length, seq_length; exact Hb).
+  rewrite map_nth. rewrite seq_nth by exact Hb. reflexivity.
+Qed.
+
+Definition tab2 (n0 n1 : Z) (f : Z -> Z -> A) : arr A :=
+  mkarr [n0; n1]
+    (flat_map (fun a => map (fun b => f (Z.of_nat a) (Z.of_nat b)) (seq 0 (Z.to_nat n1))) (seq 0 (Z.to_nat n0))).
+
+Lemma get_tab2 d n0 n1 f i j : (0 <= i < n0)%Z -> (0 <= j < n1)%Z -> get d (tab2 n0 n1 f) [i; j] = f i j.
+Proof.
+  intros Hi Hj. unfold get, tab2, flat. cbn [shape dat flat_aux].
+  replace (Z.to_nat ((0 * n0 + i) * n1 + j)) with (Z.to_nat i * Z.to_nat n1 + Z.to_nat j)%nat by nia.
+  rewrite (nth_flat_map_rows _ (Z.to_nat n1)); [| intros; rewrite map_length, seq_length; reflexivity | lia | lia].
+  rewrite nth_map_seq by lia. cbn [Nat.add]. rewrite !Z2Nat.id by lia. reflexivity.
+Qed.
+
+Lemma wf_tab2 n0 n1 f : (0 <= n0)%Z -> (0 <= n1)%Z -> wf (tab2 n0 n1 f).
+Proof.
+  intros H0 H1. split; cbn [tab2 shape dat].
+  - rewrite (flat_map_rows_length _ (Z.to_nat n1)) by (intros; rewrite map_length, seq_length; reflexivity).
+    unfold prodZ; simpl. nia.
+  - repeat constructor; assumption.
+Qed.
+
+Definition tab3 (n0 n1 n2 : Z) (f : Z -> Z -> Z -> A) : arr A :=
+  mkarr [n0; n1; n2]
+    (flat_map (fun a =>
+       flat_map (fun b => map (fun c => f (Z.of_nat a) (Z.of_nat b) (Z.of_nat c)) (seq 0 (Z.to_nat n2)))
+                (seq 0 (Z.to_nat n1)))
+       (seq 0 (Z.to_nat n0))).
+
+Lemma get_tab3 d n0 n1 n2 f i j k : (0 <= i < n0)%Z -> (0 <= j < n1)%Z -> (0 <= k < n2)%Z ->
+  get d (tab3 n0 n1 n2 f) [i; j; k] = f i j k.
+Proof.
+  intros Hi Hj Hk. unfold get, tab3, flat. cbn [shape dat flat_aux].
+  replace (Z.to_nat (((0 * n0 + i) * n1 + j) * n2 + k))
+    with (Z.to_nat i * (Z.to_nat n1 * Z.to_nat n2) + (Z.to_nat j * Z.to_nat n2 + Z.to_nat k))%nat by nia.
+  rewrite (nth_flat_map_rows _ (Z.to_nat n1 * Z.to_nat n2)); [| | lia | nia].
+  2:{ intros a. apply flat_map_rows_length. intros; rewrite map_length, seq_length; reflexivity. }
+  rewrite (nth_flat_map_rows _ (Z.to_nat n2)); [| intros; rewrite map_length, seq_length; reflexivity | lia | lia].
+  rewrite nth_map_seq by lia. cbn [Nat.add]. rewrite !Z2Nat.id by lia. reflexivity.
+Qed.
+
+Lemma wf_tab3 n0 n1 n2 f : (0 <= n0)%Z -> (0 <= n1)%Z -> (0 <= n2)%Z -> wf (tab3 n0 n1 n2 f).
+Proof.
+  intros H0 H1 H2. split; cbn [tab3 shape dat].
+  - rewrite (flat_map_rows_length _ (Z.to_nat n1 * Z.to_nat n2)).
+    + unfold prodZ; simpl. nia.
+    + intros a. apply flat_map_rows_length. intros; rewrite map_length, seq_length; reflexivity.
+  - repeat constructor; assumption.
+Qed.
+End Tab.
+
+Definition transpose2 (v : arr R) : arr R :=
+  tab2 (dim v 1%nat) (dim v 0%nat) (fun j i => get 0 v [i; j]).
+
+Lemma transpose2_spec (v : arr R) nx ny : (0 <= nx)%Z -> (0 <= ny)%Z -> shape v = [nx; ny] ->
+  wf (transpose2 v) /\ shape (transpose2 v) = [ny; nx] /\
+  forall i j, (0 <= i < nx)%Z -> (0 <= j < ny)%Z -> get 0 (transpose2 v) [j; i] = get 0 v [i; j].
+Proof.
+  intros Hx Hy Sv. unfold transpose2. rewrite (dim2_0 v _ _ Sv), (dim2_1 v _ _ Sv).
+  split; [apply wf_tab2; assumption|]. split; [reflexivity|].
+  intros i j Hi Hj. rewrite get_tab2 by assumption. reflexivity.
+Qed.
+
+Corollary interp2d_axis_swap_transpose (x y v : arr R) (nx ny : Z) (xq yq fval : R) :
+  axis x nx -> axis y ny -> shape v = [nx; ny] ->
+  u_interp2d_v x y v xq yq fval = u_interp2d_v y x (transpose2 v) yq xq fval.
+Proof.
+  intros Ax Ay Sv. pose proof (axis_n _ _ Ax). pose proof (axis_n _ _ Ay).
+  destruct (transpose2_spec v nx ny ltac:(lia) ltac:(lia) Sv) as (_ & St & Gt).
+  apply (interp2d_axis_swap x y v (transpose2 v) nx ny); assumption.
+Qed.
+
 Print Assumptions interp2d_outside.
 Print Assumptions interp2d_spec.
 Print Assumptions interp2d_node.
@@ -285,3 +389,4 @@ Print Assumptions interp2d_multilinear_exact.
 Print Assumptions interp2d_continuous_faces.
 Print Assumptions interp2d_spec_any_cell.
 Print Assumptions interp2d_axis_swap.
+Print Assumptions interp2d_axis_swap_transpose.
